@@ -129,6 +129,38 @@ def SentinelsJustified (p : Pair) : Prop :=
     (∀ s ∈ p.cxxSentinels, ∃ nv ∈ c, nv.1 = s ∧ ∃ nv' ∈ wire c p.cxxSentinels, nv'.2 = nv.2) ∧
     (∀ s ∈ p.pySentinels, ∃ nv ∈ q, nv.1 = s ∧ ∀ nv' ∈ c, nv'.2 < nv.2)
 
+/-! ### the enumerations as a user reaches them
+
+`Py.enums` is `E.__members__` read right after the import.  A user reaches a named wire value through `E.NAME`,
+`E['NAME']`, `E('NAME')`, `E['name']`, `E.from_string(..)`, `E(number).name`, `for m in E`, ..., in a process in which
+other enumerations have been asked before.  `Py.accessViews` (tools/c03_py_access.py) holds, per order in which the
+enumerations were asked and per access path, the table name -> number of every declared enumeration as that path
+answered; `Py.accessExtraNames` the names / numbers that resolved in an enumeration that does not define them. -/
+
+/-- For a path keyed by NUMBER (`E(5)`, `E[5]`, iteration) an entry carries the name of the member returned, which for
+an alias is the first name of that number: every entry of the view is a named value of the C++ enumeration, and every
+number of the C++ enumeration is reached. -/
+def CoversByValue (c v : Members) : Prop := (∀ nv ∈ v, nv ∈ c) ∧ (∀ nv ∈ c, ∃ nv' ∈ v, nv'.2 = nv.2)
+
+/-- What a view has to be relative to the C++ enumeration: the same set of (name, number) for a path keyed by name,
+`CoversByValue` for a path keyed by number. -/
+def ViewRel : Bool → Members → Members → Prop
+  | false, c, q => SameMembers c q
+  | true, c, q => CoversByValue c q
+
+/-- `PairAgrees` with the Python side read from a view instead of `Py.enums`. -/
+def ViewAgrees (byValue : Bool) (view : List (Nat × Members)) (p : Pair) : Prop :=
+  ∃ c q, lookup p.cxx cxxAll = some c ∧ lookup p.py view = some q ∧
+    ViewRel byValue (wire c p.cxxSentinels) (wire q p.pySentinels)
+
+/-- Orders of asking the enumerations that the table must contain (each observed in its own fresh interpreter). -/
+def requiredOrders : List Nat := [nm "forward", nm "reverse"]
+
+/-- Access paths that the table must contain for each of those orders (`from_string` is listed by the translator when
+the class has it; the paths with `raise_on_unrecognized=False` likewise). -/
+def requiredPaths : List Nat := [nm "attr", nm "members", nm "getitem", nm "call", nm "getitem_lower", nm "getitem_mixed",
+  nm "call_lower", nm "by_value", nm "getitem_value", nm "iteration"]
+
 /-! ### registry -/
 
 /-- C++ payload struct: (qualified name, MESSAGE_TYPE, MESSAGE_VERSION); Python payload class likewise. -/
